@@ -341,4 +341,69 @@ def lookup (cfg : Config) (st : State) (name : String) (up : Upstream) : LookupO
     if !s.b.isDone then { st := { cache := cache, now := s.now }, out := .fail, send := some s }
     else { st := { cache := Lru.Spec.set cfg.cap cache name s.b.result, now := s.now }, out := .fresh s.b.result, send := some s }
 
+/-! ### Concurrent lookups on one resolver
+
+`Resolver.Lookup` holds the mutex only around the cache probe (`r.cache.Get(name)`) and around the
+store (`r.cache.Set(name, result)`); the upstream round trip runs unlocked. A lookup is therefore two
+atomic actions, `probe` and `finish`, and lookups of several goroutines interleave arbitrarily
+between them. Between the two actions the goroutine keeps only *values* (the name, the copied
+`Result`), never a pointer into the cache: that is the Gen fact `lookupCacheOps`
+(`[Get(name), Set(name, result)]`, each inside a lock region, no other access to `r.cache`). -/
+
+/-- a lookup between its probe and its store -/
+structure Pending where
+  name : String
+  cached : Option Result   -- the (expired) value copied out of the cache by the probe
+  start : Nat              -- when the upstream round trip started
+deriving DecidableEq, Repr
+
+inductive Act where
+  | probe (tid : Nat) (name : String) (now : Nat)   -- goroutine `tid` calls Lookup(name) at `now`: locked cache probe
+  | finish (tid : Nat) (up : Upstream)              -- its upstream round trip ends (script `up`): locked store / serve-stale
+deriving DecidableEq, Repr
+
+structure CState where
+  cache : Lru.Spec String Result := []
+  pending : List (Nat × Pending) := []
+deriving Repr
+
+structure CEvent where
+  tid : Nat
+  name : String
+  out : Outcome
+deriving DecidableEq, Repr
+
+def findPending (ps : List (Nat × Pending)) (tid : Nat) : Option (Nat × Pending) := ps.find? (fun tp => tp.1 == tid)
+
+def cstep (cfg : Config) (s : CState) : Act → CState × Option CEvent
+  | .probe tid name now =>
+    match findPending s.pending tid with
+    | some _ => (s, none)   -- the goroutine is busy: not a new call
+    | none =>
+      let (cache, cached) := Lru.Spec.get s.cache name
+      let pend : CState × Option CEvent :=
+        ({ cache := cache, pending := (tid, { name := name, cached := cached, start := now }) :: s.pending }, none)
+      match cached with
+      | some r => if !r.hasExpired now then ({ s with cache := cache }, some ⟨tid, name, .hit r⟩) else pend
+      | none => pend
+  | .finish tid up =>
+    match findPending s.pending tid with
+    | none => (s, none)
+    | some tp =>
+      let p := tp.2
+      let so := sendQueries cfg p.start up
+      let pending := s.pending.filter (fun x => !(x.1 == tid))
+      if !so.b.isDone then
+        ({ s with pending := pending }, some ⟨tid, p.name, match p.cached with | some r => .stale r | none => .fail⟩)
+      else
+        ({ cache := Lru.Spec.set cfg.cap s.cache p.name so.b.result, pending := pending },
+          some ⟨tid, p.name, .fresh so.b.result⟩)
+
+def crun (cfg : Config) (s : CState) : List Act → CState × List CEvent
+  | [] => (s, [])
+  | a :: rest =>
+    let (s1, ev) := cstep cfg s a
+    let (s2, evs) := crun cfg s1 rest
+    (s2, match ev with | some e => e :: evs | none => evs)
+
 end SSV.Dns
